@@ -42,7 +42,8 @@ class Run:
         self.parts = []            # per sub-check summaries
         self.violations = []
         self.known_hits = {}
-        self.assumptions = []
+        self.assumptions = ['TLC 1.8 and the CommunityModules evaluate the specification correctly',
+                            'the Python harness only drives the code, renames, integer-encodes and counts; every judgement is a TLA+ expression']
         self.rule = ''
         self.exhaustive = None
         self.extra = {}
